@@ -58,19 +58,20 @@ type Call struct {
 }
 
 type Scenario struct {
-	ID        int        `json:"id"`
-	Kind      string     `json:"kind"`
-	Procs     []ProcSpec `json:"procs"`
-	Ordered   bool       `json:"ordered,omitempty"`
-	Calls     []Call     `json:"calls"`
-	Choices   []string   `json:"choices,omitempty"` // recorded schedule (replay)
-	Polite    bool       `json:"polite,omitempty"`  // scheduling that stays out of the known check-then-act windows
-	Note2     string     `json:"note2,omitempty"`
-	HoldExit  string     `json:"hold_exit,omitempty"`  // this process's signalled command does not exit before a shutdown is in progress (slow to die)
-	WaitUp    bool       `json:"wait_up,omitempty"`    // the first API call after run is only issued when no thread of the supervisor can move (the project is up)
-	ParkState bool       `json:"park_state,omitempty"` // also park at the status-write trace point (inside the state mutex)
-	Note      string     `json:"note,omitempty"`
-	Seed      int64      `json:"seed"`
+	ID           int        `json:"id"`
+	Kind         string     `json:"kind"`
+	Procs        []ProcSpec `json:"procs"`
+	Ordered      bool       `json:"ordered,omitempty"`
+	Calls        []Call     `json:"calls"`
+	Choices      []string   `json:"choices,omitempty"` // recorded schedule (replay)
+	Polite       bool       `json:"polite,omitempty"`  // scheduling that stays out of the known check-then-act windows
+	Note2        string     `json:"note2,omitempty"`
+	HoldRelaunch string     `json:"hold_relaunch,omitempty"` // a relaunched command (2nd launch on) of this process does not exit before every call has been issued
+	HoldExit     string     `json:"hold_exit,omitempty"`     // this process's signalled command does not exit before a shutdown is in progress (slow to die)
+	WaitUp       bool       `json:"wait_up,omitempty"`       // the first API call after run is only issued when no thread of the supervisor can move (the project is up)
+	ParkState    bool       `json:"park_state,omitempty"`    // also park at the status-write trace point (inside the state mutex)
+	Note         string     `json:"note,omitempty"`
+	Seed         int64      `json:"seed"`
 }
 
 type Result struct {
@@ -217,8 +218,21 @@ func (r *runState) enabled() []action {
 		if canExit && r.sc.HoldExit == c.Name && r.sigged[c] && !r.s.SnapshotTaken() {
 			canExit = false // still dying when the shutdown starts
 		}
+		if canExit && r.sc.HoldRelaunch == c.Name && r.launchN[c.Name] >= 2 && r.nextCall < len(r.sc.Calls) {
+			canExit = false // the re-run is still going when the later requests arrive
+		}
 		if canExit && r.sc.Kind == "stopstart" && r.sigged[c] && r.nextCall <= 2 {
 			canExit = false // still dying when the start / restart request arrives
+		}
+		// a slow-dying stop target dies LAST: as long as any supervisor thread can still move, its exit waits (a
+		// shutdown that does not wait for it is then seen to return while the command is alive)
+		last := r.sc.HoldExit == c.Name && r.sigged[c]
+		if canExit && last {
+			for _, a := range acts {
+				if strings.HasPrefix(a.key, "rel:") {
+					canExit = false
+				}
+			}
 		}
 		if canExit {
 			acts = append(acts, action{key: fmt.Sprintf("exit:%d", inst), w: 4, do: func() {
@@ -545,7 +559,7 @@ func genScenario(rng *rand.Rand, id int, kind string) *Scenario {
 		ps.Backoff = rng.Intn(3)
 		nc := 1 + rng.Intn(3)
 		for k := 0; k < nc; k++ {
-			ps.Codes = append(ps.Codes, []int{0, 0, 1, 2, 42}[rng.Intn(5)])
+			ps.Codes = append(ps.Codes, []int{0, 0, 1, 2, 42, -1}[rng.Intn(6)]) // -1: the command died by a signal
 		}
 		ps.Forever = rng.Intn(4) == 0
 		if (ps.Policy == "always" || ps.Policy == "on_failure") && ps.MaxRestarts == 0 && rng.Intn(5) != 0 {
@@ -627,7 +641,7 @@ func genScenario(rng *rand.Rand, id int, kind string) *Scenario {
 	if kind == "ordered" {
 		// ordered shutdown over a dependency graph in which everything is up and many commands are slow to die:
 		// a dependent that was asked to stop shortly before the shutdown is still alive when its turn comes
-		sc.Ordered = true
+		sc.Ordered = rng.Intn(3) > 0 // one third with the default, unordered shutdown: same situation, other code path
 		sc.WaitUp = rng.Intn(3) > 0
 		for i := range sc.Procs {
 			ps := &sc.Procs[i]
@@ -695,6 +709,18 @@ func genScenario(rng *rand.Rand, id int, kind string) *Scenario {
 			sc.Procs[n-1].Disabled = true
 			sc.WaitUp = true
 			sc.Note2 = "late-start"
+			if rng.Intn(2) == 0 {
+				sc.Procs[0].StartFail, sc.Procs[0].BadDir = false, false
+				if len(sc.Procs[0].Codes) == 0 || sc.Procs[0].Codes[0] == 0 {
+					sc.Procs[0].Codes = []int{3}
+				}
+				// the failed head is restarted through the API and is still running its second time when the leaf,
+				// which waits for the head's SUCCESS, is started: the first run failed, the second has not ended
+				sc.Note2 = "restart-head-late-start"
+				sc.Procs[0].Codes = []int{sc.Procs[0].Codes[0], 0}
+				sc.Procs[n-1].Deps = []DepSpec{{Name: "p0", Cond: "success"}}
+				sc.HoldRelaunch = "p0"
+			}
 		}
 	}
 	sc.Calls = []Call{{Op: "run"}}
@@ -713,7 +739,10 @@ func genScenario(rng *rand.Rand, id int, kind string) *Scenario {
 		sc.Calls = append(sc.Calls, Call{Op: "shutdown"})
 	case "skipchain":
 		// nothing lives for ever: Run() returns by itself (a disabled leaf is started when everything has settled)
-		if sc.Note2 == "late-start" {
+		if sc.Note2 == "restart-head-late-start" {
+			sc.Calls = append(sc.Calls, Call{Op: "restart", Name: "p0"})
+		}
+		if sc.Note2 == "late-start" || sc.Note2 == "restart-head-late-start" {
 			sc.Calls = append(sc.Calls, Call{Op: "start", Name: sc.Procs[len(sc.Procs)-1].Name})
 		}
 	case "ordered":
